@@ -320,6 +320,16 @@ def find_item(src, path):
 
     def select(items, sel):
         parts = sel.split()
+        nth = None
+        if parts[-1].startswith("#"):
+            nth = int(parts[-1][1:])
+            parts = parts[:-1]
+        out = _select(items, parts)
+        if nth is not None:
+            return out[nth - 1:nth]
+        return out
+
+    def _select(items, parts):
         out = []
         if parts[0] == "impl":
             if "for" in parts:
@@ -342,9 +352,9 @@ def find_item(src, path):
         cands = select(cur, sel)
         if depth + 1 < len(path):
             # several impl blocks may match (e.g. two inherent impls): search all
-            cur = [s for c in cands for s in c.sub]
             if not cands:
                 return None
+            cur = [s for c in cands for s in c.sub]
         else:
             if len(cands) != 1:
                 return None if not cands else ("ambiguous", cands)
